@@ -27,13 +27,16 @@ COMPONENTS = {'real': ['enspara.cluster.kmedoids (_kmedoids_pam_update, proposer
 ASSUMPTIONS = ['cost comparisons allow 4*n ulp (the library and the model may sum in different orders; under MPI the '
                'reduction order is legitimately free)', 'explicit proposals are members of the cluster being updated',
                'zero sweeps are requested through k-hybrid, which supports it, not through kmedoids(n_iters=0)']
-REACH_EXPECTED = ['seed_via_set_params', 'estimator_warm_start_sweep', 'estimator_reproducibility', 'per_rank_generators', 'proposal_accepted', 'proposal_rejected', 'mpi_run', 'random_sweep', 'hybrid_cost_sequence',
+REACH_EXPECTED = ['rmsd_trajectory_data', 'seed_via_set_params', 'estimator_warm_start_sweep', 'estimator_reproducibility', 'per_rank_generators', 'proposal_accepted', 'proposal_rejected', 'mpi_run', 'random_sweep', 'hybrid_cost_sequence',
                   'reproducibility_checked', 'reproducible_across_poison', 'warm_centres_only', 'warm_labels_only',
                   'cold_start_sequence', 'empty_cluster_share_on_rank']
 
 
+_LE_RTOL = [0.0]
+
+
 def le(a, b, n):
-    return a <= b * (1 + 4 * n * np.finfo(float).eps) + 1e-300
+    return a <= b * (1 + 4 * n * np.finfo(float).eps + _LE_RTOL[0]) + 1e-300
 
 
 def model_cost(P, g):
@@ -55,7 +58,7 @@ def centres_are_frames(P, g, where):
     require(len(g.ci) == len(g.centers), 'center_count_mismatch', where)
     for i, c in enumerate(g.ci):
         require(0 <= c < P.n, 'center_index_out_of_data', lambda: '%s centre %d index %d of %d frames' % (where, i, c, P.n))
-        require(np.array_equal(np.asarray(g.centers[i]).reshape(P.X[c].shape), P.X[c]), 'center_not_frame',
+        require(M.frame_equal(P.metric_name, g.centers[i], P.X[c]), 'center_not_frame',
                 lambda: '%s centre %d coordinates %s are not frame %d %s' % (where, i, g.centers[i], c, P.X[c]))
     require(len(set(g.ci)) == len(g.ci), 'duplicate_center', lambda: '%s centres %s' % (where, g.ci))
 
@@ -66,7 +69,7 @@ def scenario(ctx):
     mpi = t.flag(2, 5)
     deep = ctx.tier == 'thorough' and t.flag(1, 4)
     P = C.Problem(ctx, want_ranks=mpi, max_ranks=10 if deep else 6, max_frames=120 if deep else 48, max_traj=30 if deep else 24,
-                  max_len=12 if deep else 9)
+                  max_len=12 if deep else 9, allow_rmsd=True)
     if P.N == 1:
         mpi = False
     k, cutoff = P.draw_stop(ctx)
@@ -77,6 +80,8 @@ def scenario(ctx):
     ctx.scenario.update(P.describe(), setting='mpi' if mpi else 'serial', case=case, n_clusters=k, dist_cutoff=cutoff,
                         poison=poison)
     ctx.fp('c09', mpi, P.N, tuple(P.lengths), P.dtype, P.metric_name, case, k, cutoff, P.X.tobytes())
+    # reported RMSD values carry batch-dependent last bits: costs built from them are compared to 1e-5
+    _LE_RTOL[0] = 1e-5 if P.metric_name == 'rmsd' else 0.0
     if mpi:
         ctx.hit('mpi_run')
 
@@ -249,7 +254,7 @@ def scenario(ctx):
                 (rseed, a.ci, b.ci))
         est = b.est
         base = run(dict(algo='kcenters', form='function', k=k, cutoff=cutoff))
-        ctx.sut(est.fit, P.X.copy())
+        ctx.sut(est.fit, P.wrap(P.X.copy()))
         g2 = clrun.GResult(est.center_indices_, est.centers_, est.labels_, est.distances_)
         centres_are_frames(P, g2, 'second fit of one KHybrid object:')
         require(le_model(model_cost(P, g2), model_cost(P, base), P), 'hybrid_worse_than_kcenters',
